@@ -103,7 +103,7 @@ def maps_for(f, tier):
     for n in names:
         for v in menus[n]:
             out.append(((n, v),))
-    lim2 = None if tier == "thorough" else 10
+    lim2 = None if tier == "thorough" else 12
     lim3 = 7 if tier == "thorough" else 4
     for a, b in itertools.combinations(names, 2):
         for va in menus[a][:lim2]:
